@@ -112,7 +112,8 @@ def run_case(case):
         for i, pid in enumerate(history.PID_POOL):
             if case.get("setup", 0) >> i & 1:
                 w.spawn(pid, child=bool(i & 1))
-                w.mkproc(pid)
+                # every third object is a psutil.Popen instance
+                w.mkproc(pid, via_popen="popen-class" if i % 3 == 2 else False)
         for op in case["ops"]:
             kind = op[0]
             if kind == "spawn":
